@@ -43,6 +43,10 @@ func loadContracts(w *World) error {
 	if err := cf.resolveApplies(names); err != nil {
 		return err
 	}
+	// ghosts used by the obligation families
+	if cf.ghost("pendErr") == nil {
+		cf.Ghosts = append(cf.Ghosts, &Ghost{Name: "pendErr", Sort: "Iface", Init: "nil-iface"})
+	}
 	w.Contracts = cf
 	return nil
 }
